@@ -105,64 +105,94 @@ structure Corpus where
   repoOf : List Nat           -- repository index of each document
   rows : List TruthRow
 
-abbrev Bits := List Bool
+/-- a set of documents, as a predicate on the document index -/
+abbrev DocPred := Nat → Bool
 
 def Corpus.n (c : Corpus) : Nat := c.repoOf.length
-def allB (c : Corpus) (v : Bool) : Bits := List.replicate c.n v
 
-/-- truth of an atom on every document; a key the harness did not supply is `none` -/
-def Corpus.truth (c : Corpus) (k : AtomKey) (caseSensitive : Bool) : Option Bits :=
-  match c.rows.find? (fun r => r.key == k) with
-  | some r => some (if caseSensitive then r.cs else r.ci)
-  | none => none
+def Corpus.row (c : Corpus) (k : AtomKey) : Option TruthRow := c.rows.find? (fun r => r.key == k)
 
-def andB (a b : Bits) : Bits := List.zipWith (· && ·) a b
-def orB (a b : Bits) : Bits := List.zipWith (· || ·) a b
-def notB (a : Bits) : Bits := a.map (!·)
+/-- truth of an atom on document `d` (a key the harness did not supply is false everywhere; `hasKey` tells) -/
+def Corpus.truth (c : Corpus) (k : AtomKey) (caseSensitive : Bool) : DocPred := fun d =>
+  match c.row k with
+  | some r => (if caseSensitive then r.cs else r.ci).getD d false
+  | none => false
+
+def Corpus.hasKey (c : Corpus) (k : AtomKey) : Bool := (c.row k).isSome
 
 /-- `type:repo`: a document is selected iff some document of the same repository is -/
-def repoLift (c : Corpus) (v : Bits) : Bits :=
-  c.repoOf.map fun r => (c.repoOf.zip v).any fun p => p.1 == r && p.2
+def repoLift (c : Corpus) (v : DocPred) : DocPred := fun d =>
+  (List.range c.n).any fun j => c.repoOf.getD j 0 == c.repoOf.getD d 0 && v j
 
 def natToDec (n : Nat) : B := (toString n).toList.map (·.toNat)
 
 /-- the key of a parsed text atom: FileName / Content flags select the scope -/
 def scopeKind (file content : Bool) : Nat := if file then 102 else if content then 99 else 116
 
-/-- truth of a `Substring`/`Regexp` node (as an atom of kind `kind`) -/
-def atomBits (c : Corpus) (kindOverride : Option Nat) : Q → Option Bits
-  | .substr _ cs f ct src => c.truth ⟨kindOverride.getD (scopeKind f ct), src, []⟩ cs
-  | .regexp _ _ _ cs f ct src => c.truth ⟨kindOverride.getD (scopeKind f ct), src, []⟩ cs
+/-- key and case flag of a `Substring`/`Regexp` node -/
+def atomKeyOf (kindOverride : Option Nat) : Q → Option (AtomKey × Bool)
+  | .substr _ cs f ct src => some (⟨kindOverride.getD (scopeKind f ct), src, []⟩, cs)
+  | .regexp _ _ _ cs f ct src => some (⟨kindOverride.getD (scopeKind f ct), src, []⟩, cs)
   | _ => none
 
+def atomPred (c : Corpus) (kindOverride : Option Nat) (q : Q) : DocPred :=
+  match atomKeyOf kindOverride q with
+  | some (k, cs) => c.truth k cs
+  | none => fun _ => false
+
 mutual
-/-- which documents a parsed query selects; `none` = it needs an atom the harness did not supply, or contains a
-    node that has no meaning as a document filter (nil, parse-time nodes) -/
-def evalQ (c : Corpus) : Q → Option Bits
+/-- which documents a query tree selects. Parse-time `caseScopeQ` wrappers are transparent; a nil child, a bare
+    `caseQ` or `orOperator` select nothing (the parser never returns them: `C07.parse_output_kinds`). -/
+def evalQ (c : Corpus) : Q → DocPred
   | .and cs => evalAnd c cs
   | .or cs => evalOr c cs
-  | .not q => (evalQ c q).map notB
-  | .type t q => (evalQ c q).map fun v => if t = 2 then repoLift c v else v
-  | .const v => some (allB c v)
-  | .substr p cs f ct src => atomBits c none (.substr p cs f ct src)
-  | .regexp r e a cs f ct src => atomBits c none (.regexp r e a cs f ct src)
-  | .sym e => atomBits c (some 115) e
+  | .not q => fun d => !(evalQ c q d)
+  | .type t q => if t = 2 then repoLift c (evalQ c q) else evalQ c q
+  | .caseScope q => evalQ c q
+  | .const v => fun _ => v
+  | .substr p cs f ct src => atomPred c none (.substr p cs f ct src)
+  | .regexp r e a cs f ct src => atomPred c none (.regexp r e a cs f ct src)
+  | .sym e => atomPred c (some 115) e
   | .repo r => c.truth ⟨114, r, []⟩ true
   | .rawConfig n => c.truth ⟨107, natToDec n, []⟩ true
   | .branch p => c.truth ⟨98, p, []⟩ true
   | .lang n => c.truth ⟨108, n, []⟩ true
   | .metaQ f v => c.truth ⟨109, v, f⟩ true
-  | _ => none
-def evalAnd (c : Corpus) : List Q → Option Bits
-  | [] => some (allB c true)
-  | q :: qs => match evalQ c q, evalAnd c qs with
-    | some a, some b => some (andB a b)
-    | _, _ => none
-def evalOr (c : Corpus) : List Q → Option Bits
-  | [] => some (allB c false)
-  | q :: qs => match evalQ c q, evalOr c qs with
-    | some a, some b => some (orB a b)
-    | _, _ => none
+  | _ => fun _ => false
+def evalAnd (c : Corpus) : List Q → DocPred
+  | [] => fun _ => true
+  | q :: qs => fun d => evalQ c q d && evalAnd c qs d
+def evalOr (c : Corpus) : List Q → DocPred
+  | [] => fun _ => false
+  | q :: qs => fun d => evalQ c q d || evalOr c qs d
 end
+
+mutual
+/-- does the corpus supply every atom the tree asks about? (driver only) -/
+def keysPresent (c : Corpus) : Q → Bool
+  | .and cs => keysPresentList c cs
+  | .or cs => keysPresentList c cs
+  | .not q => keysPresent c q
+  | .type _ q => keysPresent c q
+  | .caseScope q => keysPresent c q
+  | .const _ => true
+  | .substr p cs f ct src => c.hasKey ⟨scopeKind f ct, src, []⟩
+  | .regexp r e a cs f ct src => c.hasKey ⟨scopeKind f ct, src, []⟩
+  | .sym e => match atomKeyOf (some 115) e with
+    | some (k, _) => c.hasKey k
+    | none => false
+  | .repo r => c.hasKey ⟨114, r, []⟩
+  | .rawConfig n => c.hasKey ⟨107, natToDec n, []⟩
+  | .branch p => c.hasKey ⟨98, p, []⟩
+  | .lang n => c.hasKey ⟨108, n, []⟩
+  | .metaQ f v => c.hasKey ⟨109, v, f⟩
+  | _ => false
+def keysPresentList (c : Corpus) : List Q → Bool
+  | [] => true
+  | q :: qs => keysPresent c q && keysPresentList c qs
+end
+
+def showPred (c : Corpus) (p : DocPred) : String :=
+  if c.n = 0 then "-" else String.ofList ((List.range c.n).map fun d => if p d then '1' else '0')
 
 end ZoektModel.C06
